@@ -82,6 +82,11 @@ def bodies(rnd: random.Random, n_random: int = 40):
     for ft in TunnellingFeatureType:
         out += [k.TunnellingFeatureGet(1, 2, ft), k.TunnellingFeatureSet(1, 2, ft, b"\x01\x00"), k.TunnellingFeatureInfo(1, 2, ft, b"\x01\x02"),
                 k.TunnellingFeatureResponse(1, 2, ft, data=b"\x00\x07")]
+        from xknx.knxip.tunnelling_feature import ReturnCode  # noqa: PLC0415
+        for rc in ReturnCode:                                   # every return code; servers may omit the value when they report an error
+            out.append(k.TunnellingFeatureResponse(3, 4, ft, return_code=rc, data=b"\x01\x02"))
+            if rc is not ReturnCode.E_SUCCESS:
+                out.append(k.TunnellingFeatureResponse(3, 4, ft, return_code=rc, data=b""))
     out += [k.RoutingBusy(0, 20, 0), k.RoutingBusy(1, 65535, 0xFFFF), k.RoutingLostMessage(0, 1), k.RoutingLostMessage(1, 65535)]
     for st in SecureSessionStatusCode:
         out.append(k.SessionStatus(status=st))
